@@ -364,6 +364,15 @@ FNUNITS = [
       "ignore_members": ["blk"],
       "fragments": {"HTPsync_ddlist": {"of": "HTPsync", "from": "list = &block->ddlist[0]", "to": "if (HP_write(file_rec, tbuf"},
                     "HTPstart_ddlist": {"of": "HTPstart", "from": "curr_dd_ptr = ddcurr->ddlist", "to": "for (i = 0"}}}),
+    # C05: the n-bit coder (mask table of HCIcnbit_init: arrays of structs as one region per field, memset of the record array; the
+    # per-byte loops of HCIcnbit_encode / HCIcnbit_decode over a struct pointer that MOVES over mask_info[] (a cursor = an index field);
+    # Hbitwrite / Hbitread as the stream builtins; HDmemfill as a builtin; the static mask tables are the generated H4.Gen.Cnbit ones;
+    # Hbitseek's result is an entry parameter of HCIcnbit_init; `~mask` on int needs two's-complement bit operations in HCIcnbit_init)
+    ("Cnbit", "hdf/src/cnbit.c", ["HCIcnbit_init", "HCIcnbit_encode", "HCIcnbit_decode"],
+     {"ignore_calls": ["HEclear", "HEPclear", "HEpush"], "io": {"Hbitwrite": "bitwrite", "Hbitread": "bitread"},
+      "abbrev": {"access_rec_special_info_cinfo_coder_info_nbit_info": "nbit", "info_cinfo_coder_info_nbit_info": "nbit"},
+      "imports": ["H4.Gen.Cnbit"], "globals": {"mask_arr8": "H4.Gen.Cnbit.mask_arr8", "mask_arr32": "H4.Gen.Cnbit.mask_arr32"},
+      "assume_calls": {"Hbitseek": "param:bitseek_ret"}, "per_fn": {"HCIcnbit_init": {"twos_complement_bitops": True}}}),
 ]
 
 
